@@ -10,8 +10,9 @@ na_path = os.path.join(VERIF, "props", "not_applicable.json")
 if os.path.exists(na_path):
     NA_REASONS = json.load(open(na_path))
 checks, na = [], []
+READY = set(open(os.path.join(VERIF, "props", "READY")).read().split())
 for pid in ids:
-    if not os.path.exists(os.path.join(VERIF, "props", pid.lower() + ".py")):
+    if pid not in READY or not os.path.exists(os.path.join(VERIF, "props", pid.lower() + ".py")):
         na.append(dict(property_id=pid, reason=NA_REASONS.get(pid, "check not built yet in this session (model and theorem planned in DESIGN.md section 4); not claimed until it runs")))
         continue
     m = importlib.import_module(pid.lower())
